@@ -96,11 +96,14 @@ pub struct Assign {
     pub extra_rows: usize,
     /// drop the last row of the block in the instance
     pub drop_last: bool,
+    /// append-time script for allocations made before the block (the
+    /// composer's own initial witnesses)
+    pub script: Vec<(usize, Fe)>,
 }
 
 impl Assign {
     pub fn new(vals: Vec<[Fe; 4]>, pis: Vec<Fe>) -> Self {
-        Assign { vals, pis, share: None, extra_rows: 0, drop_last: false }
+        Assign { vals, pis, share: None, extra_rows: 0, drop_last: false, script: vec![] }
     }
 }
 
@@ -140,10 +143,93 @@ fn build(c: &mut Composer, lay: &Layout, asg: &Assign) {
 pub fn prog(lay: &Layout, asg: &Assign) -> Prog {
     let lay = lay.clone();
     let asg = asg.clone();
-    Prog::new(move |c| {
+    let script = asg.script.clone();
+    let p = Prog::new(move |c| {
         build(c, &lay, &asg);
         Ok(())
-    })
+    });
+    if script.is_empty() {
+        p
+    } else {
+        p.with_script(script)
+    }
+}
+
+/// Values for the composer's own initial witnesses such that every initial row
+/// has arithmetic residual `delta` (found generically from the emitted rows:
+/// rows are solved one at a time through a wire whose witness no solved row uses).
+pub fn uniform_init_script(delta: Fe) -> Option<Vec<(usize, Fe)>> {
+    let c = Composer::initialized();
+    let snap = c.verif_snapshot();
+    let n_rows = snap.gates.len();
+    let resid = |vals: &[Fe], r: usize| -> Fe {
+        let g = &snap.gates[r];
+        let cur = [vals[g.w[0]], vals[g.w[1]], vals[g.w[2]], vals[g.w[3]]];
+        m1::row_components(&g.q, zero(), &cur, &[zero(); 4])[0]
+    };
+    fn dfs(order: &mut Vec<usize>, used: &mut Vec<bool>, n_rows: usize, f: &mut dyn FnMut(&[usize]) -> bool) -> bool {
+        if order.len() == n_rows {
+            return f(order);
+        }
+        for r in 0..n_rows {
+            if !used[r] {
+                used[r] = true;
+                order.push(r);
+                if dfs(order, used, n_rows, f) {
+                    return true;
+                }
+                order.pop();
+                used[r] = false;
+            }
+        }
+        false
+    }
+    let mut result: Option<Vec<Fe>> = None;
+    let mut try_order = |order: &[usize]| -> bool {
+        let mut vals = snap.witnesses.clone();
+        let mut locked = vec![false; vals.len()];
+        for &r in order {
+            let g = &snap.gates[r];
+            let mut solved = false;
+            for k in 0..4 {
+                let w = g.w[k];
+                if locked[w] {
+                    continue;
+                }
+                let keep = vals[w];
+                vals[w] = zero();
+                let r0 = resid(&vals, r);
+                vals[w] = one();
+                let r1 = resid(&vals, r);
+                vals[w] = fe(2);
+                let r2 = resid(&vals, r);
+                let slope = r1 - r0;
+                // linear in this witness and solvable
+                if slope != zero() && r2 - r1 == slope {
+                    vals[w] = (delta - r0) * inv(slope);
+                    solved = true;
+                    break;
+                }
+                vals[w] = keep;
+            }
+            if !solved {
+                return false;
+            }
+            for k in 0..4 {
+                locked[g.w[k]] = true;
+            }
+        }
+        if (0..n_rows).all(|r| resid(&vals, r) == delta) {
+            result = Some(vals);
+            true
+        } else {
+            false
+        }
+    };
+    let mut order = vec![];
+    let mut used = vec![false; n_rows];
+    dfs(&mut order, &mut used, n_rows, &mut try_order);
+    result.map(|vals| vals.iter().enumerate().filter(|(i, v)| **v != snap.witnesses[*i]).map(|(i, v)| (i, *v)).collect())
 }
 
 /// When the instance keeps shared positions on one witness the value of the
@@ -212,7 +298,9 @@ pub fn describe(lay: &Layout, asg: &Assign) -> Value {
 /// Run the real prover (+ verifier) on an instance.
 pub fn run_real(keys: &Keys, inst: &Prog, rng_stream: u64) -> (Real, Option<dusk_plonk::verif::Snapshot>) {
     let mut rng = crate::rng::ScriptedRng::base(seed(), rng_stream);
+    inst.install_script();
     let r = std::panic::catch_unwind(std::panic::AssertUnwindSafe(|| keys.0.prove(&mut rng, inst)));
+    dusk_plonk::verif::set_witness_script(&[]);
     let snap = inst.last_snapshot();
     let real = match r {
         Err(e) => Real::Panic(crate::par::panic_msg(e)),
